@@ -547,9 +547,29 @@ def route12(ctx: Any) -> List[Ob]:
         grows = [c_.args[0] for c_ in walk_local_ordered(ar.node) if isinstance(c_, ast.Call) and call_name(c_) in ('extend', 'append') and isinstance(c_.func, ast.Attribute) and isinstance(c_.func.value, ast.Name) and c_.func.value.id == nm and c_.args]
         grows += [c_.value for c_ in walk_local_ordered(ar.node) if isinstance(c_, ast.AugAssign) and isinstance(c_.target, ast.Name) and c_.target.id == nm]
         srcs = [v for v in vals if not (grows and isinstance(v, (ast.List, ast.Call)) and norm(v) in ('[]', 'list()'))] + loops_ + grows
-        return bool(srcs) and all(all(packet_derived(x.id, depth - 1) for x in ast.walk(v) if isinstance(x, ast.Name)) for v in srcs)
 
-    from_packets = all(packet_derived(n_) for n_ in free) and any(isinstance(x, ast.Attribute) and x.attr in ('_questions', 'questions') for part in [qx] + acc_parts for x in ast.walk(part))
+        def derived_at(v: ast.AST) -> bool:
+            """every name in `v` is packet-derived -- a name that an enclosing loop binds is judged by THAT loop (the same
+            name may be bound again, later, by another loop)"""
+            for x in ast.walk(v):
+                if isinstance(x, ast.Name):
+                    encl = [lp for lp in walk_local_ordered(ar.node) if isinstance(lp, ast.For) and isinstance(lp.target, ast.Name) and lp.target.id == x.id and any(y is v for b_ in lp.body for y in ast.walk(b_))]
+                    if encl:
+                        if not all(all(packet_derived(z.id, depth - 1) for z in ast.walk(lp.iter) if isinstance(z, ast.Name)) for lp in encl):
+                            return False
+                    elif not packet_derived(x.id, depth - 1):
+                        return False
+            return True
+
+        return bool(srcs) and all(derived_at(v) for v in srcs)
+
+    # (what it is extended with: the expression itself, or -- for a loop variable -- the collection its loop runs over)
+    part_srcs: List[ast.AST] = [qx] + acc_parts
+    for part in acc_parts:
+        for x in ast.walk(part):
+            if isinstance(x, ast.Name):
+                part_srcs += [lp.iter for lp in walk_local_ordered(ar.node) if isinstance(lp, ast.For) and isinstance(lp.target, ast.Name) and lp.target.id == x.id and any(y is part for b_ in lp.body for y in ast.walk(b_))]
+    from_packets = all(packet_derived(n_) for n_ in free) and any(isinstance(x, ast.Attribute) and x.attr in ('_questions', 'questions') for part in part_srcs for x in ast.walk(part))
     # `a record the host saw multicast less than one second before` is read from the cache: every record type the host can
     # answer with is cached when it is seen (pairs and cache adds per record type, shared with C06.ORDER)
     from .c06 import pair_per_live_record
